@@ -56,7 +56,12 @@ func backendOps(c *Case, d *mapDriver, keys [][]byte, nops int) {
 	pickKey := func() []byte { return keys[c.Pick("key", len(keys))] }
 
 	for i := 0; i < nops; i++ {
-		switch c.Weighted("op", 6, 6, 3, 2, 2, 1, 2, 3, 2, 1, 1) {
+		wCleanup := 0
+		if d.evictable {
+			wCleanup = 2
+		}
+
+		switch c.Weighted("op", 6, 6, 3, 2, 2, 1, 2, 3, 2, 1, 1, wCleanup) {
 		case 0: // Write
 			k := pickKey()
 			ttl := callTTLs[c.Pick("ttl", len(callTTLs))]
@@ -135,6 +140,8 @@ func backendOps(c *Case, d *mapDriver, keys [][]byte, nops int) {
 			} else {
 				d.read(k, false, true)
 			}
+		case 11: // cleanup cycle with eviction (only when the driver is told a limit is configured)
+			d.cleanupCycle()
 		case 10: // Walk aborted by the callback: stops at once, reports the callback's error and the entries processed
 			d.walkAbort(c.Int("abort-after", 0, 3))
 		case 9: // Len only
